@@ -603,6 +603,26 @@ func domainFor(ctx context.Context, cl eth2wrap.Client, name signing.DomainName,
 	return cl.Domain(ctx, dt, epoch)
 }
 
+// SigningRootForkAt wraps the object root with the domain of the given name computed for the fork
+// that is active at forkEpoch -- whatever epoch the object itself names, and without the
+// genesis-domain rule of the builder domain.  Used to make signatures "for the neighbouring fork".
+func SigningRootForkAt(ctx context.Context, cl eth2wrap.Client, name signing.DomainName, root eth2p0.Root, forkEpoch eth2p0.Epoch) ([32]byte, error) {
+	resp, err := cl.Spec(ctx, &eth2api.SpecOpts{})
+	if err != nil {
+		return [32]byte{}, err
+	}
+	dt, ok := resp.Data[string(name)].(eth2p0.DomainType)
+	if !ok {
+		return [32]byte{}, errors.New("domain type not in spec: " + string(name))
+	}
+	d, err := cl.Domain(ctx, dt, forkEpoch)
+	if err != nil {
+		return [32]byte{}, err
+	}
+
+	return (&eth2p0.SigningData{ObjectRoot: root, Domain: d}).HashTreeRoot()
+}
+
 // SigningRoot computes hash_tree_root(SigningData{object_root, domain}) for the variant.
 func SigningRoot(ctx context.Context, cl eth2wrap.Client, name signing.DomainName, epoch eth2p0.Epoch, root eth2p0.Root, v Variant) ([32]byte, error) {
 	switch v {
